@@ -219,6 +219,12 @@ fn apply_session(s: &mut attohttpc::Session, set: &Set) {
 }
 
 fn apply_builder(b: attohttpc::RequestBuilder, set: &Set) -> attohttpc::RequestBuilder {
+    // (no draw) a caller who looks at the request between two settings has not changed it
+    let mut b = b;
+    {
+        let insp = b.inspect();
+        let _ = (insp.headers().len(), insp.url().as_str().len());
+    }
     match set {
         Set::MaxHeaders(v) => b.max_headers(*v),
         Set::MaxRedir(v) => b.max_redirections(*v),
